@@ -655,6 +655,10 @@ class CSSStyleSheet(cssutils.stylesheets.StyleSheet):
             self._log.error('CSSStyleSheet: Invalid rules cannot be added.')
             return
 
+        # the rule object itself becomes part of this sheet (not if only its
+        # content is taken over)
+        inserted = True
+
         # CHECK HIERARCHY
         # @charset
         if rule.type == rule.CHARSET_RULE:
@@ -663,6 +667,7 @@ class CSSStyleSheet(cssutils.stylesheets.StyleSheet):
                 # always first and only
                 if self._cssRules and self._cssRules[0].type == rule.CHARSET_RULE:
                     self._cssRules[0].encoding = rule.encoding
+                    inserted = False
                 else:
                     self._cssRules.insert(0, rule)
             elif index != 0 or (
@@ -754,6 +759,7 @@ class CSSStyleSheet(cssutils.stylesheets.StyleSheet):
                             break
                 else:
                     # find first point to insert, but after @charset/@import
+                    index = len(self._cssRules)
                     last = -1
                     for i, r in enumerate(self._cssRules):
                         if r.type in (r.CHARSET_RULE, r.IMPORT_RULE):
@@ -804,7 +810,17 @@ class CSSStyleSheet(cssutils.stylesheets.StyleSheet):
                 # no doublettes
                 self._cssRules.insert(index, rule)
                 if _clean:
-                    self._cleanNamespaces()
+                    try:
+                        self._cleanNamespaces()
+                    except xml.dom.DOMException:
+                        # the rule to be replaced is still in use
+                        for i, r in enumerate(self._cssRules):
+                            if r is rule:
+                                del self._cssRules[i]
+                                break
+                        raise
+            else:
+                inserted = False
 
         # @variables
         elif rule.type == rule.VARIABLES_RULE:
@@ -818,6 +834,7 @@ class CSSStyleSheet(cssutils.stylesheets.StyleSheet):
                 else:
                     # find first point to insert, but after @charset, @import
                     # and @namespace
+                    index = len(self._cssRules)
                     last = -1
                     for i, r in enumerate(self._cssRules):
                         if r.type in (
@@ -899,6 +916,8 @@ class CSSStyleSheet(cssutils.stylesheets.StyleSheet):
                 self._cssRules.insert(index, rule)
 
         # post settings
+        if not inserted:
+            return index
         moved = rule._parentStyleSheet is not self
         rule._parentStyleSheet = self
 
